@@ -40,9 +40,9 @@ def _task(arg):
     by_name = {(k.module, k.qualname): k for k in contracts}
     use = {}
     if mode == 'modular':
-        for qn in uses.get(c.qualname, []):
+        for qn in uses.get(c.name, []):
             for k in contracts:
-                if k.qualname == qn:
+                if k.name == qn:
                     use[k.key] = k
     try:
         r = verify_combo(world, c, combo, use, {})
@@ -55,14 +55,19 @@ def _task(arg):
     return r
 
 
-def run_contracts(world, contracts, uses, mode='modular', only=None, procs=None):
-    """returns list of per-combo results"""
+def run_contracts(world, contracts, uses, mode='modular', only=None, procs=None, combo_filter=None):
+    """returns list of per-combo results.  combo_filter: substrings that the label of a kind
+    combination must contain (used by canaries to keep them cheap)"""
     _G.update(world=world, contracts=contracts, uses=uses)
     tasks = []
     for ci, c in enumerate(contracts):
-        if only is not None and c.qualname not in only:
+        if only is not None and c.name not in only:
             continue
-        for combo_i, _ in enumerate(c.kind_combinations()):
+        for combo_i, combo in enumerate(c.kind_combinations()):
+            if combo_filter:
+                label = ', '.join(f"{k}:{v!r}" for k, v in combo.items())
+                if not all(x in label for x in combo_filter):
+                    continue
             tasks.append((ci, combo_i, mode))
     procs = procs or min(16, max(1, len(tasks)))
     if procs == 1 or os.environ.get('PYVC_SERIAL'):
@@ -78,7 +83,7 @@ def aggregate(contracts, results):
     funcs = {}
     for r in results:
         c = contracts[r['contract']]
-        fr = funcs.setdefault(c.qualname, {'paths': 0, 'combos': 0, 'unsupported': [], 'errors': [],
+        fr = funcs.setdefault(c.name, {'paths': 0, 'combos': 0, 'unsupported': [], 'errors': [],
                                           'assumed': [], 'cut': 0, 'budget': None, 'returns': 0, 'raises': {}})
         fr['combos'] += 1
         fr['paths'] += r.get('paths', 0)
@@ -97,8 +102,8 @@ def aggregate(contracts, results):
             if a not in fr['assumed']:
                 fr['assumed'].append(a)
         for inst in r['instances']:
-            oid = f"{c.prop}.{c.qualname}.{inst['clause']}"
-            o = obs.setdefault(oid, {'id': oid, 'function': c.qualname, 'module': c.module,
+            oid = f"{c.prop}.{c.name}.{inst['clause']}"
+            o = obs.setdefault(oid, {'id': oid, 'function': c.name, 'module': c.module,
                                      'clause': inst['clause'], 'kind': inst['kind'],
                                      'level': inst['info'].get('level', c.level),
                                      'instances': 0, 'unsat': 0, 'sat': 0, 'unknown': 0,
@@ -115,11 +120,11 @@ def aggregate(contracts, results):
                 o['unknowns'].append({'combo': inst['combo'], 'info': inst['info']})
     # expected clauses that produced no instance at all (vacuity)
     for c in contracts:
-        if c.qualname not in funcs:
+        if c.name not in funcs:
             continue
         for cl in c.ensures:
-            oid = f"{c.prop}.{c.qualname}.{cl.name}"
-            obs.setdefault(oid, {'id': oid, 'function': c.qualname, 'module': c.module, 'clause': cl.name,
+            oid = f"{c.prop}.{c.name}.{cl.name}"
+            obs.setdefault(oid, {'id': oid, 'function': c.name, 'module': c.module, 'clause': cl.name,
                                  'kind': 'ensures', 'level': cl.level, 'instances': 0, 'unsat': 0, 'sat': 0,
                                  'unknown': 0, 'backends': {}, 'time_s': 0.0, 'witnesses': [], 'unknowns': []})
     for o in obs.values():
